@@ -385,6 +385,36 @@ def rule_r6(ck, prog, rule='C08.R6', cls='sdk::metrics::FilteredOrderedAttribute
     return cnt
 
 
+def rule_r6_processor_reaches_key(ck, prog, rule='C08.R6', cls='sdk::metrics::SyncMetricStorage'):
+    """every series key a storage with an attributes processor builds from caller attributes goes through that processor: each
+    GetOrSetDefault(KeyValueIterable, processor, ...) and each FilteredOrderedAttributeMap built from a KeyValueIterable gets
+    this->attributes_processor_ (a key built without it keeps the keys the view filters out: two series instead of one)"""
+    r = prog.record(cls)
+    procs = [fd['name'] for fd in r['fields'] if 'AttributesProcessor' in fd['t']]
+    if not procs:
+        raise AnalysisBroken('%s has no attributes processor member' % cls)
+    cnt = 0
+    for f in sorted([x for x in prog.funcs.values() if x.cls == r['qn'] and not x.d.get('lambda')], key=lambda x: x.key):
+        kv_params = [p for p in f.params if 'KeyValueIterable' in p['t']]
+        if not kv_params:
+            continue
+        for n in f.nodes:
+            uses_kv = lambda idx: any(f.nodes[j]['k'] == 'ref' and f.nodes[j].get('id') == kv_params[0]['id'] for j in f.subtree(idx))
+            is_lookup = n['k'] == 'call' and qmatch(n.get('c', ''), 'AttributesHashMapWithCustomHash::GetOrSetDefault') and n.get('args') and uses_kv(n['args'][0])
+            is_key = n['k'] == 'construct' and qmatch(n.get('c', ''), 'FilteredOrderedAttributeMap::FilteredOrderedAttributeMap') and n.get('args') and \
+                not n.get('copymove') and uses_kv(n['args'][0])
+            if not (is_lookup or is_key):
+                continue
+            cnt += 1
+            passed = any(access_path(f, a) == ('this', procs[0]) for a in n.get('args', [])[1:] if a is not None and a >= 0)
+            site = 'processor-reaches-key@%s(%s)' % (f.name, ','.join(p['t'].rsplit('::', 1)[-1][:18] for p in f.params))
+            ck.verdict(passed, rule, f, site, n, 'the series key is built through %s' % procs[0] if passed else
+                       '%s builds the series key from the caller\'s attributes without %s: attribute keys the view filters out stay in the key, so one filtered series splits into several (the sibling overloads apply the filter)' % (f.name, procs[0]))
+    if cnt < 2:
+        raise AnalysisBroken('%s: fewer than 2 attribute-keyed lookups found' % cls)
+    return cnt
+
+
 def rule_r7(ck, prog, rule='C08.R7', setters=('sdk::common::OrderedAttributeMap::SetAttribute', 'sdk::common::AttributeMap::SetAttribute')):
     cnt = 0
     for s in setters:
@@ -412,7 +442,7 @@ def run(ck, prog):
     ck.doc('C08.R3', 'the configured cardinality limit reaches every AttributesHashMap a storage creates', 3)
     ck.doc('C08.R4', 'overflow guard arithmetic; lookup miss -> overflow test -> insertion in every GetOrSetDefault', 5)
     ck.doc('C08.R5', 'a value stored under the shared overflow key is merged, not replaced', 2)
-    ck.doc('C08.R6', 'filter gates insertion; filter key lookups use the full view', 4)
+    ck.doc('C08.R6', 'filter gates insertion; filter key lookups use the full view; the storage\'s processor reaches every key built from caller attributes', 6)
     ck.doc('C08.R7', 'attribute setters store last-write-wins', 2)
     with ck.canary('C08.R2'):
         rule_r2(ck, prog, cls='canary::c08::BadKey')
@@ -425,5 +455,6 @@ def run(ck, prog):
     rule_r4(ck, prog)
     rule_r5(ck, prog)
     rule_r6(ck, prog)
+    rule_r6_processor_reaches_key(ck, prog)
     rule_r7(ck, prog)
     return {}
